@@ -63,6 +63,7 @@ def main():
     ap.add_argument("--check-jobs", type=int, default=8)
     ap.add_argument("--seed", type=int, default=1)
     ap.add_argument("--catalog", default=os.path.join(HOME, "mutants", "catalog.json"))
+    ap.add_argument("--expect-quiet", action="store_true", help="benign catalogue: every owning check must exit 0")
     args = ap.parse_args()
     cat = json.load(open(args.catalog))["mutants"]
     if args.only:
@@ -73,13 +74,18 @@ def main():
     bad = 0
     with ThreadPoolExecutor(args.jobs) as ex:
         for out in ex.map(lambda m: one(m, args), cat):
-            caught = all(r["exit"] == 1 for r in out["results"].values()) and not out.get("error")
-            bad += 0 if caught else 1
-            print("%-6s %-7s %s %s" % (out["id"], "CAUGHT" if caught else "MISSED", out.get("suite", ""), out.get("error", "")))
+            if args.expect_quiet:
+                caught = all(r["exit"] == 0 for r in out["results"].values()) and not out.get("error")
+                bad += 0 if caught else 1
+                print("%-6s %-7s %s %s" % (out["id"], "QUIET" if caught else "ALARM", out.get("suite", ""), out.get("error", "")))
+            else:
+                caught = all(r["exit"] == 1 for r in out["results"].values()) and not out.get("error")
+                bad += 0 if caught else 1
+                print("%-6s %-7s %s %s" % (out["id"], "CAUGHT" if caught else "MISSED", out.get("suite", ""), out.get("error", "")))
             for pid, r in out["results"].items():
                 print("       %s exit=%d %s %s" % (pid, r["exit"], (r["violations"] or [""])[0][:200], " | ".join(r["tail"])[:300]))
             sys.stdout.flush()
-    print("%d mutant(s) not caught" % bad)
+    print("%d mutant(s) %s" % (bad, "raised an alarm although harmless" if args.expect_quiet else "not caught"))
     sys.exit(1 if bad else 0)
 
 
